@@ -413,6 +413,18 @@ def mgda_loop():
         vsum, nonneg, bil = frame.vars["__mgda_ax__"]
         a = frame.vars["alpha"].term
         a0 = frame.vars["__alpha0__"]
+        if all(k in frame.vars for k in ("a", "b", "c")):
+            # [L] fwGamma_descent / mgda_step_descent (Lean), instantiated at this iteration's scalars: for a^2 <= b c,
+            # b, c >= 0 and the exact line-search gamma:  (1-g)^2 b + 2 g (1-g) a + g^2 c <= b.  A valid scalar fact, so
+            # it may be used both when the invariant is assumed and when it is asserted (keeps the nonlinear step easy).
+            try:
+                ra, rb, rc = as_real(frame.vars["a"]), as_real(frame.vars["b"]), as_real(frame.vars["c"])
+                g = z3.If(rc <= ra, z3.RealVal(1), z3.If(rb <= ra, z3.RealVal(0), (rb - ra) / (rb + rc - 2 * ra)))
+                cx.assume(z3.Implies(z3.And(ra * ra <= rb * rc, rb >= 0, rc >= 0),
+                                     z3.And(0 <= g, g <= 1, (1 - g) * (1 - g) * rb + 2 * g * (1 - g) * ra + g * g * rc <= rb)),
+                          tag="[L] fwGamma_mem_Icc, fwGamma_descent (Lean)")
+            except Exception:  # noqa: BLE001
+                pass
         return [("sum_is_one", vsum(a) == 1), ("nonnegative", nonneg(a)), ("norm_never_increases", bil(a, a) <= bil(a0, a0))]
     def post_body(cx, frame, i):
         """One iteration is an exact-line-search Frank-Wolfe step (Lean: IsFWStep / fwGamma_optimal, fw_rate):
